@@ -26,6 +26,13 @@ func C04(c *Ctx) int {
 		{Name: "lr1.ResolveThreeWay", Pkg: pkg, Func: "H_ResolveThreeWay", Reach: []string{"conflict"},
 			Bounds: "a cell with one shift and two reduces; arbitrary qualifiers"},
 	}
+	hs = append(hs,
+		Harness{Name: "lr1.ResolveSharedShiftCrossRule", Pkg: pkg, Func: "H_ResolveSharedShiftCrossRule", Reach: []string{"conflict"},
+			Bounds: "a shift backed by productions of two rules (expr PLUS expr / incr = expr PLUS PLUS); four productions with arbitrary qualifiers"},
+		Harness{Name: "lr1.ResolveSharedShiftOrder", Pkg: pkg, Func: "H_ResolveSharedShiftOrder", Reach: []string{"conflict"},
+			Bounds: "the same with the rules declared in the other order"},
+		Harness{Name: "lr1.ResolveMixedShift", Pkg: pkg, Func: "H_ResolveMixedShift", Reach: []string{"conflict", "resolved"},
+			Bounds: "a shift backed by two productions of one rule; arbitrary qualifiers (differing positive levels outside the assertion)"})
 	ks := []int{1, 2}
 	if c.Thorough() {
 		ks = append(ks, 3)
